@@ -63,7 +63,7 @@ def strategy(tier):
 def _run(dev, spec, opts_over=None, with_currents=True):
     with sim.workdir():
         opts = build.make_options(spec["options"], dev, output_file="out.h5", **(opts_over or {}))
-        solver = build.make_solver(dev, opts, applied_vector_potential=build.make_vector_potential(spec["field"], dev, opts.field_units),
+        solver = build.make_solver(dev, opts, applied_vector_potential=build.make_vector_potential(spec["field"], dev, opts.field_units, opts.solve_time),
                                    terminal_currents=build.make_currents(spec["currents"], opts.solve_time) if with_currents else None)
         fixed = np.array(solver.operators.fixed_sites)
         sol = solver.solve()
